@@ -348,6 +348,9 @@ class Interp:
         if any(e[0] in ("ix", "?") for e in loc[1]):
             self.counter += 1
             idx = None
+            for e in loc[1]:
+                if e[0] == "ix" and len(e) > 1:
+                    idx = e[1]
             for e in place.proj:
                 if isinstance(e, dict) and "ix" in e:
                     iv = S.read((self.L(e["ix"]), ()))
@@ -1058,6 +1061,10 @@ def stable(sv, depth=0):
         return "phi(%s)" % stable_loc(sv[2], depth + 1)
     if h in ("min", "max"):
         return "%s(%s,%s)" % (h, r(sv[2]), r(sv[3]))
+    if h == "streq":
+        return "streq(%s,%s)" % (r(sv[1]), r(sv[2]))
+    if h == "not":
+        return "!%s" % r(sv[1])
     if h == "elem":
         base = "elem" if len(sv) < 3 or sv[2] is None else "elem[%s]" % sv[2]
         if len(sv) > 3 and ELEM_SOURCES[0]:
